@@ -390,10 +390,11 @@ def prop_task(draw, w, th, models, wild=False):
     top = th.bodies[m][-1] if th.bodies[m] else None
     acts = ["x", "x", "p", "r", "e"]
     a = draw(st.sampled_from(acts))
-    if a == "p" and getattr(w, "no_bare_pause", False):
+    if a in ("p", "r") and getattr(w, "no_bare_pause", False):
         ss = th.q.get((m, "subsystem"))
         if ss and ss[-1] == R.L(R.L_TASK_BODY[m]):
-            # known finding C20/bare-task-pause: pause only inside a region above the body
+            # known finding C20-bare-task-pause: a task is paused or resumed only while
+            # a region is open above its body region (as the runtimes do)
             w.excluded_known = getattr(w, "excluded_known", 0) + 1
             return None
     if not wild and top is not None and top.task in tasks.values():
